@@ -508,6 +508,13 @@ pub fn cases(thorough: bool) -> Vec<Case> {
 }
 
 pub fn run_cases(cases: Vec<Case>, only: Option<&str>) -> (u64, Vec<(String, String)>, Vec<String>) {
+    if std::env::var_os("GRID_LIST").is_some() {
+        // the driver asks for the case names only (crash isolation)
+        for c in &cases {
+            println!("{}", c.0);
+        }
+        return (0, vec![], vec![]);
+    }
     let cases: Vec<Case> = cases.into_iter().filter(|c| only.map(|o| c.0 == o).unwrap_or(true)).collect();
     let next = AtomicUsize::new(0);
     let viol: Mutex<Vec<(usize, String)>> = Mutex::new(vec![]);
